@@ -741,8 +741,23 @@ class TextXMetaModel(DebugPrinter):
                 model_str, debug=debug, pre_ref_resolution_callback=kwargs_callback
             )
 
-            for p in self._model_processors:
-                p(model, self)
+            try:
+                for p in self._model_processors:
+                    p(model, self)
+            except:  # noqa
+                if hasattr(model, "_tx_parser"):
+                    # See internal_model_from_file: models loaded by this
+                    # attempt must not stay cached in the repositories.
+                    from textx.scoping import (
+                        get_included_models,
+                        remove_models_from_repositories,
+                    )
+
+                    remove_models_from_repositories(
+                        get_included_models(model),
+                        getattr(model._tx_parser, "_models_of_this_load", [model]),
+                    )
+                raise
         else:
             model = self.internal_model_from_file(
                 file_name,
